@@ -159,6 +159,57 @@ def formatDocstring (s : Chars) : Chars :=
     let m := (minIndent rest).getD 0
     joinNl (trim first :: rest.map (dedentLine m))
 
+/-! ### a fixture name inside a string literal's source text -/
+
+/-- first occurrence of `name` in `seg` as a WHOLE WORD (the characters before and after are not
+    word characters), scanning like `str::match_indices`: a rejected match is skipped as a whole
+    (`skip` counts its remaining characters). Result: byte offset in `seg`. -/
+def wordOccAux (name : Chars) : Option Char → Nat → Chars → Option Nat
+  | _, _, [] => none
+  | _, skip + 1, c :: cs => (wordOccAux name (some c) skip cs).map (· + clen c)
+  | prev, 0, c :: cs =>
+    if name.isPrefixOf (c :: cs) then
+      if prev.any isWordChar || (((c :: cs).drop name.length).head?).any isWordChar then
+        (wordOccAux name (some c) (name.length - 1) cs).map (· + clen c)
+      else some 0
+    else (wordOccAux name (some c) 0 cs).map (· + clen c)
+
+def isQuote (c : Char) : Bool := c == '"' || c == '\''
+
+/-- the search starts at the opening quote, so that a prefix letter (`r"r"`) is never taken for the
+    name: `literal.find(['"', '\'']).unwrap_or(0)` -/
+def skipStringPrefix (s : Nat) (seg : Chars) : Nat × Chars :=
+  if seg.any isQuote then
+    (s + blen (seg.takeWhile (fun c => !isQuote c)), seg.dropWhile (fun c => !isQuote c))
+  else (s, seg)
+
+/-- the part of line `ln` (1-based) that lies inside the literal `r` (from its opening quote on
+    the first line), with its starting byte column -/
+def literalSegment (lines : List Chars) (line col endLine endCol ln : Nat) : Option (Nat × Chars) :=
+  match lines[ln - 1]? with
+  | none => none
+  | some L =>
+    let s := if ln == line then col else 0
+    let e := if ln == endLine then endCol else blen L
+    match bsliceFrom L s with
+    | none => none
+    | some t =>
+      (bsliceTo t (e - s)).map (fun seg => if ln == line then skipStringPrefix s seg else (s, seg))
+
+/-- `record_string_fixture_usage`: where the name stands, as a whole word, inside the literal's
+    source text (line, start byte column, end byte column). A name with a line break in it is not
+    looked for. When the text does not spell the name (escapes, implicit concatenation): the span
+    between the first and the last column of the literal, the end never before the start. -/
+def stringNameSpan (lines : List Chars) (name : Chars) (line col endLine endCol : Nat) : Nat × Nat × Nat :=
+  let found :=
+    if name.contains '\n' then none
+    else (List.range (endLine + 1 - line)).findSome? (fun k =>
+      match literalSegment lines line col endLine endCol (line + k) with
+      | none => none
+      | some (s, seg) =>
+        (wordOccAux name none 0 seg).map (fun off => (line + k, s + off, s + off + blen name)))
+  found.getD (line, col + 1, max (endCol - 1) (col + 1))
+
 /-! ### `find_function_name_position` (byte columns) -/
 
 def findFunctionNamePosition (lines : List Chars) (line : Nat) (fname : Chars) : Nat × Nat :=
